@@ -5,7 +5,7 @@
 
 use maybenot::constants::{STATE_END, STATE_SIGNAL};
 use maybenot::counter::{Counter, Operation};
-use maybenot::event::Event;
+use maybenot::event::{Event, TriggerEvent};
 use maybenot::verif::Step;
 use maybenot::Machine;
 use serde_json::json;
@@ -318,6 +318,31 @@ fn boost_counters(r: &mut Xo, m: &mut Machine) {
     }
 }
 
+/// NormalRecv: counter += 1; NormalSent: counter -= 1 (reaches zero: CounterZero leads to a padding state);
+/// TunnelRecv: back to the start.
+fn period_probe(use_b: bool) -> Machine {
+    use maybenot::action::Action;
+    use maybenot::counter::{Counter, Operation};
+    use maybenot::event::Event;
+    use maybenot::state::{State, Trans};
+    let mut s0 = State::new(enum_map::enum_map! { Event::NormalRecv => vec![Trans(1, 1.0)], _ => vec![] });
+    let _ = &mut s0;
+    let mut s1 = State::new(enum_map::enum_map! { Event::NormalSent => vec![Trans(2, 1.0)], _ => vec![] });
+    let mut s2 = State::new(enum_map::enum_map! { Event::CounterZero => vec![Trans(3, 1.0)], Event::TunnelRecv => vec![Trans(0, 1.0)], _ => vec![] });
+    let mut s3 = State::new(enum_map::enum_map! { Event::TunnelRecv => vec![Trans(0, 1.0)], _ => vec![] });
+    s3.action = Some(Action::SendPadding { bypass: false, replace: false, timeout: crate::gen::constant(7.0), limit: None });
+    let inc = Counter::new(Operation::Increment);
+    let dec = Counter::new(Operation::Decrement);
+    if use_b {
+        s1.counter = (None, Some(inc));
+        s2.counter = (None, Some(dec));
+    } else {
+        s1.counter = (Some(inc), None);
+        s2.counter = (Some(dec), None);
+    }
+    Machine::new(1 << 40, 0.0, 0, 0.0, vec![s0, s1, s2, s3]).expect("the probe is valid")
+}
+
 impl Prop for C08 {
     fn cases(&self, tier: Tier) -> u64 {
         match tier {
@@ -343,10 +368,34 @@ impl Prop for C08 {
             let m0 = machines[0].clone();
             machines.push(m0);
         }
+        // scale (two cases per 65536): a probe machine whose counter is zeroed in calls that are exactly 2^8 and
+        // 2^16 calls apart, or for the first time in call number 2^16 of the instance, with idle calls in between
+        let period_case = matches!(cx.case % 65536, 1 | 2);
+        let use_b = cx.case % 65536 == 2;
+        if period_case {
+            machines = vec![period_probe(use_b)];
+            out.bump("long_histories_with_zero_crossings_2^16_calls_apart");
+        }
+        // consecutive crossings 2^8 and then 2^16 calls apart; with counter B the first one in call number 2^16
+        let zero_calls: Vec<usize> = if use_b { vec![65_535, 65_535 + 256, 65_535 + 256 + 65_536] } else { vec![2, 2 + 256, 2 + 256 + 65_536] };
+        let script = move |i: usize, _: &[crate::drive::Act]| -> Vec<TriggerEvent> {
+            // the crossing happens in call index z (NormalSent), prepared in call z-1 (NormalRecv), undone in z+1
+            if zero_calls.contains(&(i + 1)) {
+                vec![TriggerEvent::NormalRecv]
+            } else if zero_calls.contains(&i) {
+                vec![TriggerEvent::NormalSent]
+            } else if i > 0 && zero_calls.contains(&(i - 1)) {
+                vec![TriggerEvent::TunnelRecv]
+            } else if i % 7 == 0 {
+                vec![TriggerEvent::TunnelSent]
+            } else {
+                vec![]
+            }
+        };
         let rng_seed = rand_core::RngCore::next_u64(&mut r);
         let start = VClock(1 << 40);
         let h = HCfg {
-            calls: r.range(10, 200) as usize,
+            calls: if period_case { 65_535 + 256 + 65_536 + 3 } else { r.range(10, 200) as usize },
             max_batch: *r.pick(&[1, 1, 2, 4, 8]),
             empty: true,
             backwards: false,
@@ -371,10 +420,14 @@ impl Prop for C08 {
             h,
             max_time: u64::MAX,
             extra16: 0,
+            script: if period_case { Some(&script) } else { None },
         };
         match run_scenario(sc, &mut r, &mut mon, out, |_, _| None) {
             Ok(s) => {
                 out.add("calls", s.calls);
+                if period_case {
+                    out.add("zero_crossings_in_long_histories", mon.crossings);
+                }
                 if mon.crossings > 0 {
                     out.nontrivial(hash_of(&(machines.iter().map(|m| m.serialize()).collect::<Vec<_>>(), s.hist_hash)));
                 }
